@@ -1,6 +1,246 @@
-(* placeholder while the pipeline is brought up; replaced by the real property file *)
-From Coq Require Import ZArith List.
-From Sync Require Import Sched SyncSpec SyncModel.
-Theorem trylock_never_blocks_stub : forall p t m, prim_step p t (PTryLock m) <> Blocked.
-Proof. intros p t m; cbn; destruct (acquire p m t); discriminate. Qed.
-Print Assumptions trylock_never_blocks_stub.
+(* Properties_C11.v - C11 "Mutex, Semaphore, Signal, Monitor and Thread keep their contracts".
+
+   Every theorem is about  w = reach scripts started sig0 sem0 sched  =  the state of the model
+   (SyncModel.v: libnstd's five classes as programs of primitive calls, on Sched.v: pthread mutex /
+   condition variable / POSIX semaphore / create / join) after ANY list of scheduler moves
+   (Run t | Spurious t | Timeout t | Clock n | Rotate c), for any number of threads, any scripts of
+   library calls, any initial signal state and any initial semaphore value >= 0.  [trace w] is the
+   history of library-call returns (newest first); SyncSpec.v translates the property text into
+   predicates over that history.
+
+   clause of the property                                             theorem
+   ------------------------------------------------------------------------------------------------------
+   Mutex admits one thread at a time                                   mutex_history_exclusive, mutex_one_holder
+   ... re-entrantly for its owner                                      mutex_reentrant
+   tryLock never blocks                                                trylock_never_blocks, trylock_enabled
+   tryLock succeeds when the mutex is free (iff free or own)           trylock_succeeds_iff
+   Semaphore: successful waits <= initial + signals                    semaphore_conserved
+   no waiter stays blocked while the count is positive                 semaphore_no_waiter_blocked_while_positive
+   Signal: wait true only if set since last reset                      signal_wait_true_only_if_set
+   no waiter stays blocked while it remains set                        signal_no_waiter_blocked_while_set
+   set releases all current waiters                                    signal_set_releases_all_waiters
+   successful Monitor waits never outnumber set() calls                monitor_waits_le_sets
+   a set() after a waiter took the monitor releases a waiter           monitor_set_releases_a_waiter,
+                                                                       monitor_woken_waiter_returns_true
+   timed waits return false only after their timeout has expired       timed_wait_false_only_after_timeout,
+                                                                       deadline_exact, deadline_is_spec
+   Thread::join returns the function's result after it has finished    join_returns_result_after_finish, thread_result
+
+   "stays blocked" is stated as absence of stuck states: whenever the bad configuration holds, a named
+   thread has an enabled step that ends it (the schedulers of the model are arbitrary, so no fairness
+   is assumed or needed for these statements).
+   The OS primitives themselves are modelled (Sched.v) - trusted base, see level_note of checks/C11.py. *)
+From Coq Require Import ZArith List Bool Arith.
+From Sync Require Import Sched SyncSpec SyncModel SyncArith SyncInv SyncTrace SyncSignal SyncTimed SyncMonitor SyncTheorems.
+Import ListNotations.
+Local Open Scope Z_scope.
+
+(* ---------------- Mutex ---------------- *)
+Theorem mutex_history_exclusive : forall scripts started s0 v0 sched, 0 <= v0 ->
+  mtx_ok (trace (reach scripts started s0 v0 sched)) = true.
+Proof. exact mutex_history_exclusive_l. Qed.
+Print Assumptions mutex_history_exclusive.
+
+Theorem mutex_one_holder : forall scripts started s0 v0 sched, 0 <= v0 -> forall u v,
+  (held (trace (reach scripts started s0 v0 sched)) u > 0)%nat ->
+  (held (trace (reach scripts started s0 v0 sched)) v > 0)%nat -> u = v.
+Proof. exact mutex_one_holder_l. Qed.
+Print Assumptions mutex_one_holder.
+
+Theorem mutex_reentrant : forall scripts started s0 v0 sched, 0 <= v0 -> forall t,
+  let w := reach scripts started s0 v0 sched in
+  m_owner (mtx (ps w) XM) = Some t -> pc (tc w t) = MtxLockP -> enabled w t = true.
+Proof. exact mutex_reentrant_l. Qed.
+Print Assumptions mutex_reentrant.
+
+Theorem trylock_never_blocks : forall p t m, prim_step p t (PTryLock m) <> Blocked.
+Proof. exact trylock_never_blocks_l. Qed.
+Print Assumptions trylock_never_blocks.
+
+Theorem trylock_enabled : forall scripts started s0 v0 sched, 0 <= v0 -> forall t,
+  let w := reach scripts started s0 v0 sched in
+  pc (tc w t) = MtxTryP \/ pc (tc w t) = MonTryP -> enabled w t = true.
+Proof. exact trylock_enabled_l. Qed.
+Print Assumptions trylock_enabled.
+
+Theorem trylock_succeeds_iff : forall scripts started s0 v0 sched, 0 <= v0 -> forall t,
+  let w := reach scripts started s0 v0 sched in
+  pc (tc w t) = MtxTryP ->
+  forall p' r, prim_step (ps w) t (pending (pc (tc w t))) = Return p' r ->
+  (r = 0 <-> (m_owner (mtx (ps w) XM) = None \/ m_owner (mtx (ps w) XM) = Some t)).
+Proof. exact trylock_succeeds_iff_l. Qed.
+Print Assumptions trylock_succeeds_iff.
+
+(* ---------------- Semaphore ---------------- *)
+Theorem semaphore_conserved : forall scripts started s0 v0 sched, 0 <= v0 ->
+  let w := reach scripts started s0 v0 sched in
+  sem_ok v0 (trace w) = true /\ sem_waits (trace w) + sem (ps w) XS = v0 + sem_signals (trace w) /\ 0 <= sem (ps w) XS.
+Proof. exact semaphore_conserved_l. Qed.
+Print Assumptions semaphore_conserved.
+
+Theorem semaphore_no_waiter_blocked_while_positive : forall scripts started s0 v0 sched, 0 <= v0 -> forall t,
+  let w := reach scripts started s0 v0 sched in
+  0 < sem (ps w) XS -> (pc (tc w t) = SemWaitP \/ exists d, pc (tc w t) = SemWaitTP d) -> enabled w t = true.
+Proof. exact semaphore_no_waiter_blocked_while_positive_l. Qed.
+Print Assumptions semaphore_no_waiter_blocked_while_positive.
+
+(* ---------------- Signal ---------------- *)
+Theorem signal_wait_true_only_if_set : forall scripts started s0 v0 sched, 0 <= v0 ->
+  let w := reach scripts started s0 v0 sched in
+  sig_ok s0 (trace w) = true /\ sig_state s0 (trace w) = sigf w.
+Proof. exact signal_wait_true_only_if_set_l. Qed.
+Print Assumptions signal_wait_true_only_if_set.
+
+Theorem signal_no_waiter_blocked_while_set : forall scripts started s0 v0 sched, 0 <= v0 -> forall u,
+  let w := reach scripts started s0 v0 sched in
+  sigf w = true -> blocked_on SC (st (ps w) u) = true ->
+  exists v, (pc (tc w v) = SigSetUnlock \/ pc (tc w v) = SigSetBcast) /\ enabled w v = true.
+Proof. exact signal_no_waiter_blocked_while_set_l. Qed.
+Print Assumptions signal_no_waiter_blocked_while_set.
+
+Theorem signal_set_releases_all_waiters : forall scripts started s0 v0 sched, 0 <= v0 -> forall t,
+  let w := reach scripts started s0 v0 sched in
+  pc (tc w t) = SigSetBcast -> forall u, blocked_on SC (st (ps (step w (Run t))) u) = false.
+Proof. exact signal_set_releases_all_waiters_l. Qed.
+Print Assumptions signal_set_releases_all_waiters.
+
+(* ---------------- Monitor ---------------- *)
+Theorem monitor_waits_le_sets : forall scripts started s0 v0 sched, 0 <= v0 ->
+  let w := reach scripts started s0 v0 sched in
+  mon_ok (trace w) = true /\ mon_waits (trace w) + b2z (monf w) <= mon_sets (trace w).
+Proof. exact monitor_waits_le_sets_l. Qed.
+Print Assumptions monitor_waits_le_sets.
+
+Theorem monitor_set_releases_a_waiter : forall scripts started s0 v0 sched, 0 <= v0 -> forall u,
+  let w := reach scripts started s0 v0 sched in
+  monf w = true -> blocked_on MC (st (ps w) u) = true -> mark w u = true ->
+  exists v, ((pc (tc w v) = MonSetUnlock \/ pc (tc w v) = MonSetSignal) /\ enabled w v = true) \/
+            (exists dl dl', st (ps w) v = TWoken MM 0 dl /\ pc (tc w v) = MonWaitCond dl' /\
+                            (is_free (mtx (ps w) MM) = true -> enabled w v = true)).
+Proof. exact monitor_set_releases_a_waiter_l. Qed.
+Print Assumptions monitor_set_releases_a_waiter.
+
+Theorem monitor_woken_waiter_returns_true : forall scripts started s0 v0 sched, 0 <= v0 -> forall v dl dl',
+  let w := reach scripts started s0 v0 sched in
+  st (ps w) v = TWoken MM 0 dl -> pc (tc w v) = MonWaitCond dl' -> is_free (mtx (ps w) MM) = true -> monf w = true ->
+  let w' := step w (Run v) in
+  monf w' = false /\ exists c, trace w' = EvRet v c 1 :: trace w /\ is_mon_wait c = true.
+Proof. exact monitor_woken_waiter_returns_true_l. Qed.
+Print Assumptions monitor_woken_waiter_returns_true.
+
+(* ---------------- timed waits ---------------- *)
+Theorem timed_wait_false_only_after_timeout : forall scripts started s0 v0 sched, 0 <= v0 ->
+  timed_ok (trace (reach scripts started s0 v0 sched)) = true.
+Proof. exact timed_wait_false_only_after_timeout_l. Qed.
+Print Assumptions timed_wait_false_only_after_timeout.
+
+Theorem deadline_exact : forall s ns t, 0 <= t -> 0 <= ns < NS ->
+  0 <= snd (deadline s ns t) < NS /\
+  fst (deadline s ns t) * NS + snd (deadline s ns t) = s * NS + ns + t * 1000000 /\
+  0 <= ns + Z.rem t 1000 * 1000000 < 2 * NS.
+Proof. exact deadline_exact_lemma. Qed.
+Print Assumptions deadline_exact.
+
+Theorem deadline_is_spec : forall s ns t, 0 <= t -> 0 <= ns < NS -> deadline s ns t = spec_deadline s ns t.
+Proof. exact deadline_is_spec_lemma. Qed.
+Print Assumptions deadline_is_spec.
+
+(* ---------------- Thread ---------------- *)
+Theorem join_returns_result_after_finish : forall scripts started s0 v0 sched, 0 <= v0 ->
+  join_ok (trace (reach scripts started s0 v0 sched)) = true.
+Proof. exact join_returns_result_after_finish_l. Qed.
+Print Assumptions join_returns_result_after_finish.
+
+Theorem thread_result : forall scripts started s0 v0 sched, 0 <= v0 -> forall t v,
+  let w := reach scripts started s0 v0 sched in
+  st (ps w) t = TDone v -> exited (trace w) t = Some v.
+Proof. exact thread_result_l. Qed.
+Print Assumptions thread_result.
+
+(* ================= non-vacuity: concrete schedules that meet the hypotheses / exercise the events ================= *)
+Definition all_started (_ : tid) := true.
+Definition only0 (t : tid) := Nat.eqb t 0%nat.
+Definition runs (t : tid) (n : nat) : list move := repeat (Run t) n.
+Definition sc3 (a b c : list libcall) (t : tid) : list libcall :=
+  match t with O => a | S O => b | S (S O) => c | _ => [] end.
+
+(* Signal: two waiters blocked, the setter has written the flag and not yet broadcast: the premise of
+   signal_no_waiter_blocked_while_set holds; afterwards both waits return true *)
+Definition sig_sc := sc3 [SigWait] [SigSet] [SigWait].
+Definition sig_mid := reach sig_sc all_started false 0 (runs 0%nat 3%nat ++ runs 2%nat 3%nat ++ runs 1%nat 2%nat).
+Example ex_signal_blocked_while_set :
+  (sigf sig_mid, blocked_on SC (st (ps sig_mid) 0%nat), blocked_on SC (st (ps sig_mid) 2%nat), pc (tc sig_mid 1%nat))
+  = (true, true, true, SigSetUnlock).
+Proof. vm_compute. reflexivity. Qed.
+Example ex_signal_waits_return_true :
+  trace (reach sig_sc all_started false 0 (runs 0%nat 3%nat ++ runs 2%nat 3%nat ++ runs 1%nat 4%nat ++ runs 0%nat 2%nat ++ runs 2%nat 2%nat))
+  = [EvRet 2%nat SigWait 1; EvRet 0%nat SigWait 1; EvRet 1%nat SigSet 0; EvSigWrite 1%nat true].
+Proof. vm_compute. reflexivity. Qed.
+Example ex_signal_bcast_point : pc (tc (reach sig_sc all_started false 0 (runs 0%nat 3%nat ++ runs 2%nat 3%nat ++ runs 1%nat 3%nat)) 1%nat) = SigSetBcast.
+Proof. vm_compute. reflexivity. Qed.
+
+(* Monitor: a waiter took the monitor and blocked, then set() wrote the flag: premise of
+   monitor_set_releases_a_waiter; after the signal the waiter is woken with rc = 0 and the lock is free:
+   premise of monitor_woken_waiter_returns_true; at the end one successful wait, one set *)
+Definition mon_sc := sc3 [MonLock; MonWait; MonUnlock] [MonSet] [].
+Definition mon_mid := reach mon_sc all_started false 0 (runs 0%nat 4%nat ++ runs 1%nat 2%nat).
+Example ex_monitor_marked_waiter :
+  (monf mon_mid, blocked_on MC (st (ps mon_mid) 0%nat), mark mon_mid 0%nat, pc (tc mon_mid 1%nat)) = (true, true, true, MonSetUnlock).
+Proof. vm_compute. reflexivity. Qed.
+Definition mon_woken := reach mon_sc all_started false 0 (runs 0%nat 4%nat ++ runs 1%nat 4%nat).
+Example ex_monitor_woken :
+  (monf mon_woken, st (ps mon_woken) 0%nat, pc (tc mon_woken 0%nat), is_free (mtx (ps mon_woken) MM))
+  = (true, TWoken MM 0 None, MonWaitCond None, true).
+Proof. vm_compute. reflexivity. Qed.
+Example ex_monitor_history :
+  trace (reach mon_sc all_started false 0 (runs 0%nat 4%nat ++ runs 1%nat 4%nat ++ runs 0%nat 3%nat))
+  = [EvRet 0%nat MonUnlock 0; EvRet 0%nat MonWait 1; EvRet 1%nat MonSet 0; EvMonSet 1%nat; EvRet 0%nat MonLock 0].
+Proof. vm_compute. reflexivity. Qed.
+
+(* Mutex: thread 0 holds it twice (re-entrant), thread 1's tryLock fails and its lock is not enabled *)
+Definition mtx_sc := sc3 [MtxLock; MtxLock; MtxUnlock] [MtxTryLock; MtxLock] [].
+Definition mtx_mid := reach mtx_sc all_started false 0 (runs 0%nat 4%nat ++ runs 1%nat 3%nat).
+Example ex_mutex_held_twice :
+  (trace mtx_mid, held (trace mtx_mid) 0%nat, m_owner (mtx (ps mtx_mid) XM), pc (tc mtx_mid 1%nat), enabled mtx_mid 1%nat)
+  = ([EvRet 1%nat MtxTryLock 0; EvRet 0%nat MtxLock 0; EvRet 0%nat MtxLock 0], 2%nat, Some 0%nat, MtxLockP, false).
+Proof. vm_compute. reflexivity. Qed.
+Definition mtx_re := reach mtx_sc all_started false 0 (runs 0%nat 3%nat).
+Example ex_mutex_reentrant_premise : (m_owner (mtx (ps mtx_re) XM), pc (tc mtx_re 0%nat), enabled mtx_re 0%nat) = (Some 0%nat, MtxLockP, true).
+Proof. vm_compute. reflexivity. Qed.
+Example ex_trylock_point : pc (tc (reach mtx_sc all_started false 0 (runs 0%nat 4%nat ++ runs 1%nat 1%nat)) 1%nat) = MtxTryP.
+Proof. vm_compute. reflexivity. Qed.
+
+(* Semaphore: initial value 1; one wait, one signal, a timed waiter with the count positive is enabled *)
+Definition sem_sc := sc3 [SemWait; SemWaitT 5] [SemSignal] [SemTryWait].
+Definition sem_mid := reach sem_sc all_started false 1 (runs 0%nat 3%nat ++ runs 1%nat 2%nat).
+Example ex_semaphore_positive_waiter :
+  (trace sem_mid, sem (ps sem_mid) XS, pc (tc sem_mid 0%nat), enabled sem_mid 0%nat)
+  = ([EvRet 1%nat SemSignal 0; EvRet 0%nat SemWait 1], 1, SemWaitTP (0, 5000000), true).
+Proof. vm_compute. reflexivity. Qed.
+Example ex_semaphore_history :
+  trace (reach sem_sc all_started false 1 (runs 0%nat 3%nat ++ runs 1%nat 2%nat ++ runs 0%nat 1%nat ++ runs 2%nat 2%nat))
+  = [EvRet 2%nat SemTryWait 0; EvRet 0%nat (SemWaitT 5) 1; EvRet 1%nat SemSignal 0; EvRet 0%nat SemWait 1].
+Proof. vm_compute. reflexivity. Qed.
+
+(* timed waits of all three classes return false: a timeout move one nanosecond early is a no-op, at the
+   deadline it fires; the clock starts at ...999999999 ns so that the nanosecond field carries *)
+Definition tmo_sc := sc3 [SigWaitT 10] [MonLock; MonWaitT 1] [SemWaitT 2].
+Example ex_timed_false_events :
+  trace (reach tmo_sc all_started false 0
+    ([Clock 1999999999] ++ runs 0%nat 3%nat ++ runs 1%nat 4%nat ++ runs 2%nat 1%nat ++
+     [Timeout 0%nat; Clock 2000999999; Timeout 1%nat; Timeout 2%nat; Clock 2001999999; Timeout 2%nat; Clock 2010000000; Timeout 0%nat] ++
+     runs 0%nat 2%nat ++ runs 1%nat 1%nat))
+  = [EvRet 1%nat (MonWaitT 1) 0; EvTimedFalse 1%nat (MonWaitT 1) 1999999999 2010000000;
+     EvRet 0%nat (SigWaitT 10) 0; EvTimedFalse 0%nat (SigWaitT 10) 1999999999 2010000000;
+     EvRet 2%nat (SemWaitT 2) 0; EvTimedFalse 2%nat (SemWaitT 2) 1999999999 2001999999;
+     EvRet 1%nat MonLock 0].
+Proof. vm_compute. reflexivity. Qed.
+Example ex_deadline_carry : deadline 1 999999999 1001 = (3, 999999) /\ spec_deadline 1 999999999 1001 = (3, 999999).
+Proof. vm_compute. split; reflexivity. Qed.
+
+(* Thread: start, the thread function returns 101, join returns 101 *)
+Definition join_sc := sc3 [ThStart 1%nat; ThJoin 1%nat] [CsEnter] [].
+Example ex_join_history :
+  trace (reach join_sc only0 false 0 (runs 0%nat 3%nat ++ runs 1%nat 2%nat ++ runs 0%nat 1%nat))
+  = [EvRet 0%nat (ThJoin 1%nat) 101; EvJoin 0%nat 1%nat 101; EvExit 1%nat 101; EvRet 1%nat CsEnter 1; EvRet 0%nat (ThStart 1%nat) 1].
+Proof. vm_compute. reflexivity. Qed.
